@@ -88,7 +88,7 @@ def main():
             'patch_lines': sum(1 for l in patch.split('\n') if re.match(r'^[+-][^+-]', l)),
             'what_it_is': section(md, 'what the change is', 'the change', 'change')[:1800],
             'why_it_breaks_the_property': section(md, 'why it breaks')[:1800],
-            'needs_in_order_to_manifest': section(md, 'what is needed for it to manifest')[:2500],
+            'needs_in_order_to_manifest': section(md, 'what is needed for it to manifest', 'what it needs in order to manifest', 'what it needs')[:2500],
             'demonstration': {'file': 'demo_test.go', 'package': pkg, 'copy_to': 'repository root' if sub == '.' else './' + sub,
                               'run': f'go test -vet=off -count=1 -run "TestC[0-9]+.*|.*[Dd]emo.*" ./{sub}'.replace('./.', '.')},
             'origin': 'written by a sub-agent that saw only the property text and its own scratch worktree (agent_meta.md is its report)',
